@@ -13,15 +13,16 @@ import tempfile
 from .. import aldyenv, gen_db, gen_reads, par, pipeline, tlc
 
 
-def make_gene(rng, d, kind):
-    """Returns (yaml path, gene, contig length)."""
+def make_gene(rng, d, kind, delins=True):
+    """Returns (yaml path, contig length)."""
     if kind == "toy":
         txt, _ = gen_reads.toy_yaml(rng.choice("+-"), rng.choice("+-"), seed=rng.randrange(50))
         yml = os.path.join(d, "toys.yml")
         with open(yml, "w") as f:
             f.write(txt)
         return yml, 20000
-    db = gen_db.random_db(rng, pseudogene=True if rng.random() < 0.7 else None)
+    kw = {} if delins else {"kinds": dict(sub=5, msub=1.5, **{"del": 2, "ins": 2, "delins": 0})}
+    db = gen_db.random_db(rng, pseudogene=True if rng.random() < 0.7 else None, **kw)
     yml = os.path.join(d, "genx.yml")
     gen_db.realise(db, yml)
     return yml, gen_db.contig_length(db, "hg19")
